@@ -49,17 +49,82 @@ def _strip(stmts):
 
 
 def _find_class(tree, name):
-    for st in tree.body:
-        if isinstance(st, ast.ClassDef) and st.name == name:
-            return st
-    raise TranslateError("class %s not found" % name)
+    """the unique, undecorated top-level class of that name"""
+    found = [st for st in ast.walk(tree) if isinstance(st, ast.ClassDef) and st.name == name]
+    top = [st for st in tree.body if isinstance(st, ast.ClassDef) and st.name == name]
+    if len(found) != 1 or len(top) != 1:
+        raise TranslateError("class %s defined %d times (%d at top level)" % (
+            name, len(found), len(top)))
+    if top[0].decorator_list or top[0].keywords:
+        raise TranslateError("class %s is decorated / has a metaclass" % name)
+    return top[0]
 
 
 def _find_method(cls, name):
+    """the unique def of that name in the class body; a decorator other than a single
+    @staticmethod could replace the function by anything, so it fails closed"""
+    found = [st for st in cls.body if isinstance(st, (ast.FunctionDef, ast.AsyncFunctionDef))
+             and st.name == name]
+    if len(found) != 1 or not isinstance(found[0], ast.FunctionDef):
+        raise TranslateError("method %s.%s defined %d times" % (cls.name, name, len(found)))
+    decs = [U(d) for d in found[0].decorator_list]
+    if decs not in ([], ["staticmethod"]):
+        raise TranslateError("method %s.%s is decorated with %s" % (cls.name, name, decs))
     for st in cls.body:
-        if isinstance(st, ast.FunctionDef) and st.name == name:
-            return st
-    raise TranslateError("method %s.%s not found" % (cls.name, name))
+        if isinstance(st, (ast.Assign, ast.AnnAssign, ast.AugAssign)):
+            tg = st.targets if isinstance(st, ast.Assign) else [st.target]
+            if any(isinstance(t, ast.Name) and t.id == name for t in tg):
+                raise TranslateError("%s.%s is rebound in the class body" % (cls.name, name))
+    return found[0]
+
+
+# modules whose functions the facts are about: nothing but imports, classes and functions at
+# module level (a statement there could rebind a method after the class is built), classes
+# without decorators / metaclasses / copy or attribute hooks
+ANCHORED_MODULES = ("collisionArray.py", "boltzmann.py", "polynomial.py", "equationOfMotion.py",
+                    "manager.py", "exceptions.py", "grid.py", "grid3Scales.py", "particle.py")
+HOOKS = ("__deepcopy__", "__copy__", "__reduce__", "__reduce_ex__", "__getstate__",
+         "__setstate__", "__getattr__", "__getattribute__", "__setattr__", "__delattr__",
+         "__new__", "__init_subclass__", "__class_getitem__", "__set_name__")
+
+
+def check_plain_modules(trees):
+    for f in ANCHORED_MODULES:
+        if f not in trees:
+            raise TranslateError("source file %s not found" % f)
+        for st in trees[f].body:
+            if isinstance(st, (ast.Import, ast.ImportFrom, ast.ClassDef, ast.FunctionDef)):
+                continue
+            if isinstance(st, ast.Expr) and isinstance(st.value, ast.Constant) and \
+                    isinstance(st.value.value, str):
+                continue
+            if isinstance(st, ast.If) and U(st.test) in ("typing.TYPE_CHECKING", "TYPE_CHECKING") \
+                    and not st.orelse and all(isinstance(x, (ast.Import, ast.ImportFrom))
+                                              for x in st.body):
+                continue
+            raise TranslateError("%s: module-level statement `%s`" % (f, U(st)[:70]))
+        for cls in [st for st in trees[f].body if isinstance(st, ast.ClassDef)]:
+            if cls.keywords:
+                raise TranslateError("%s: class %s has a metaclass" % (f, cls.name))
+            decs = [U(d) for d in cls.decorator_list]
+            if decs not in ([], ["dataclass"]):
+                raise TranslateError("%s: class %s decorated with %s" % (f, cls.name, decs))
+            names = {}
+            for m in cls.body:
+                if isinstance(m, (ast.FunctionDef, ast.AsyncFunctionDef)):
+                    names[m.name] = names.get(m.name, 0) + 1
+                    if m.name in HOOKS:
+                        raise TranslateError("%s: %s.%s defined" % (f, cls.name, m.name))
+                    d = [U(x) for x in m.decorator_list]
+                    if d not in ([], ["staticmethod"]) and f in (
+                            "collisionArray.py", "boltzmann.py", "polynomial.py"):
+                        raise TranslateError("%s: %s.%s decorated with %s" % (
+                            f, cls.name, m.name, d))
+                elif isinstance(m, ast.ClassDef):
+                    raise TranslateError("%s: nested class %s.%s" % (f, cls.name, m.name))
+            dup = [k for k, v in names.items() if v > 1]
+            if dup:
+                raise TranslateError("%s: %s defines %s more than once" % (f, cls.name, dup))
 
 
 def _kind_of_exc(name):
@@ -206,19 +271,25 @@ def extract_new_from_directory(cls):
     tr = ib[1]
     if tr.orelse or tr.finalbody:
         raise TranslateError("try has else/finally")
+    # h5py.File(...) raises FileNotFoundError for an absent file and some other OSError for a
+    # file it cannot open (not HDF5, a directory, ...); handlers are tried in order
     kinds = {}
     for h in tr.handlers:
-        if h.type is None or U(h.type) != "FileNotFoundError":
-            raise TranslateError("unexpected handler `except %s`" % (
-                U(h.type) if h.type else ""))
+        if h.type is None:
+            raise TranslateError("bare `except:` around the file read")
+        names = [U(e) for e in h.type.elts] if isinstance(h.type, ast.Tuple) else [U(h.type)]
+        if any(nm not in ("FileNotFoundError", "OSError", "IOError") for nm in names):
+            raise TranslateError("unexpected handler `except %s`" % U(h.type))
         hb = _strip(h.body)
         if len(hb) != 1:
-            raise TranslateError("FileNotFoundError handler does more than raise")
-        kinds["missing"] = _raise_kind(hb[0])
-    if "missing" not in kinds:
-        # the FileNotFoundError (an OSError) escapes as it is
-        kinds["missing"] = "OtherError"
-    facts["c_kind_missing"] = kinds["missing"]
+            raise TranslateError("file-open handler does more than raise")
+        k = _raise_kind(hb[0])
+        kinds.setdefault("missing", k)
+        if "OSError" in names or "IOError" in names:
+            kinds.setdefault("unreadable", k)
+    # what is not handled escapes as the OSError it is
+    facts["c_kind_missing"] = kinds.get("missing", "OtherError")
+    facts["c_kind_unreadable"] = kinds.get("unreadable", "OtherError")
     tb = _strip(tr.body)
     if len(tb) != 1 or not isinstance(tb[0], ast.With) or \
             U(tb[0].items[0].context_expr) != "h5py.File(str(filename), 'r')" or \
@@ -765,32 +836,80 @@ def extract_poly_change_basis(tree):
 # ----------------------------------------------------------------------------------
 # Polynomial.evaluate: output layout assumed by the definition `evaluated` of Props/C14.v
 
+class _DropAssertMessages(ast.NodeTransformer):
+    def visit_Assert(self, node):
+        self.generic_visit(node)
+        node.msg = None
+        return node
+
+
+# the body of Polynomial.evaluate, statement by statement (assert messages dropped)
+EVALUATE_BODY = ['compactCoord = np.asarray(compactCoord)',
+ 'if axes is None:\n    axes = tuple(np.arange(self.rank))',
+ 'assert compactCoord.shape[0] == len(axes) and 1 <= len(compactCoord.shape) <= 2',
+ 'singlePoint = False',
+ 'if len(compactCoord.shape) == 1:\n'
+ '    compactCoord = compactCoord.reshape((len(axes), 1))\n'
+ '    singlePoint = True',
+ 'polynomials = np.ones((compactCoord.shape[1],) + self.coefficients.shape)',
+ 'for j, i in enumerate(axes):\n'
+ "    assert self.basis[i] != 'Array'\n"
+ '    n: np.ndarray\n'
+ '    if self.endpoints[i]:\n'
+ "        if self.direction[i] == 'z':\n"
+ '            n = np.arange(self.grid.M + 1)\n'
+ "        elif self.direction[i] == 'pz':\n"
+ '            n = np.arange(self.grid.N + 1)\n'
+ '        else:\n'
+ '            n = np.arange(self.grid.N)\n'
+ "    elif self.direction[i] == 'z':\n"
+ '        n = np.arange(1, self.grid.M)\n'
+ "    elif self.direction[i] == 'pz':\n"
+ '        n = np.arange(1, self.grid.N)\n'
+ '    else:\n'
+ '        n = np.arange(self.grid.N - 1)\n'
+ '    pn: np.ndarray\n'
+ "    if self.basis[i] == 'Cardinal':\n"
+ '        pn = np.array(self.cardinal(compactCoord[j, :, None], n[None, :], '
+ 'self.direction[i]))\n'
+ "    elif self.basis[i] == 'Chebyshev':\n"
+ '        restriction = None\n'
+ '        if not self.endpoints[i]:\n'
+ '            n += 1\n'
+ "            if self.direction[i] == 'z':\n"
+ "                restriction = 'full'\n"
+ "            elif self.direction[i] == 'pz':\n"
+ "                restriction = 'full'\n"
+ '            else:\n'
+ "                restriction = 'partial'\n"
+ '        pn = np.array(self.chebyshev(compactCoord[j, :, None], n[None, :], restriction))\n'
+ '    polynomials *= np.expand_dims(pn, tuple(np.arange(1, i + 1)) + tuple(np.arange(i + 2, '
+ 'self.rank + 1)))',
+ 'result = np.sum(self.coefficients[None, ...] * polynomials, axis=tuple(np.array(axes) + 1))',
+ 'if singlePoint:\n'
+ '    return float(result[0]) if np.ndim(result[0]) == 0 else np.array(result[0])',
+ 'return np.array(result)']
+
+
 def check_evaluate_layout(tree):
-    """(points, remaining axes in order); row r of the points goes with axes[r]"""
+    """Polynomial.evaluate is the hand-written definition `evaluated` of Props/C14.v:
+    (points, remaining axes in order), row r of the points goes with axes[r], ONE pass over all
+    points.  Statement-exact, in order; anything else fails closed."""
+    import copy as _copy
     cls = _find_class(tree, "Polynomial")
     fn = _find_method(cls, "evaluate")
     if [a.arg for a in fn.args.args] != ["self", "compactCoord", "axes"]:
         raise TranslateError("Polynomial.evaluate signature changed")
-    text = U(fn)
-    needed = [
-        "polynomials = np.ones((compactCoord.shape[1],) + self.coefficients.shape)",
-        "for j, i in enumerate(axes):",
-        "self.cardinal(compactCoord[j, :, None], n[None, :], self.direction[i])",
-        "self.chebyshev(compactCoord[j, :, None], n[None, :], restriction)",
-        "polynomials *= np.expand_dims(pn, tuple(np.arange(1, i + 1)) + "
-        "tuple(np.arange(i + 2, self.rank + 1)))",
-        "result = np.sum(self.coefficients[None, ...] * polynomials, "
-        "axis=tuple(np.array(axes) + 1))",
-    ]
-    text = text.replace("for (j, i) in", "for j, i in")
-    for line in needed:
-        if line not in text:
-            raise TranslateError("Polynomial.evaluate: layout statement not found: " + line)
-    # nothing permutes the result afterwards
-    tail = text[text.index(needed[-1]) + len(needed[-1]):]
-    for bad in ("transpose", "moveaxis", "swapaxes", "reshape", ".T"):
-        if bad in tail:
-            raise TranslateError("Polynomial.evaluate: result is rearranged (%s)" % bad)
+    have = [U(_DropAssertMessages().visit(_copy.deepcopy(st))).replace(
+        "for (j, i) in", "for j, i in") for st in _strip(fn.body)]
+    for k, want in enumerate(EVALUATE_BODY):
+        if k >= len(have) or have[k] != want:
+            raise TranslateError("Polynomial.evaluate: statement %d is not `%s` but `%s`" % (
+                k, want.splitlines()[0][:70],
+                have[k].splitlines()[0][:70] if k < len(have) else "<missing>"))
+    if len(have) != len(EVALUATE_BODY):
+        raise TranslateError("Polynomial.evaluate: extra statement `%s`" %
+                             have[len(EVALUATE_BODY)].splitlines()[0][:70])
 
 
 # ----------------------------------------------------------------------------------
@@ -1025,6 +1144,8 @@ def extract_manager(tree):
 ALLOWED_CALLS = {
     ("boltzmann.py", "BoltzmannSolver.loadCollisions", "newFromDirectory"),
     ("manager.py", "WallGoManager.setupWallSolver", "loadCollisions"),
+    ("manager.py", "WallGoManager.solveWall", "setupWallSolver"),
+    ("manager.py", "WallGoManager.solveWallDetonation", "setupWallSolver"),
     ("equationOfMotion.py", "EOM.getBoltzmannFiniteDifference", "collisionArray.changeBasis"),
     ("collisionArray.py", "CollisionArray.newFromDirectory", "newFromPolynomial"),
     ("collisionArray.py", "CollisionArray.newFromDirectory", "interpolateCollisionArray"),
@@ -1042,47 +1163,159 @@ ALLOWED_WRITES = {
 }
 
 
+ANCHORED_FUNCTIONS = ("newFromDirectory", "loadCollisions", "interpolateCollisionArray",
+                      "newFromPolynomial", "setCollisionArray", "changeBasis", "evaluate",
+                      "setupWallSolver", "getBoltzmannFiniteDifference", "solveWall",
+                      "solveWallDetonation", "updateParticleList", "cardinal", "chebyshev",
+                      "_checkBasis", "__getitem__", "getBasisSize", "getBasisType")
+MUTATING_METHODS = ("fill", "sort", "resize", "put", "itemset", "partition", "setfield",
+                    "byteswap", "setflags")
+
+
+def _is_collision_expr(text):
+    return text.endswith(".collisionArray") or text == "collisionArray" or \
+        text.endswith(".polynomialData") or \
+        (text.endswith(".coefficients") and ("ollision" in text or "polynomialData" in text))
+
+
 def scan_call_paths(trees):
-    """-> list of unreviewed uses (file, function, what)"""
+    """-> list of unreviewed uses (file, function, what).  Within each function one level of
+    alias tracking: a local bound from an expression that IS a collision array, its Polynomial
+    or its coefficient array (or a view / attribute of such a local) counts as that object."""
     new = []
     for fname, tree in sorted(trees.items()):
-        def visit(node, qual):
+        funcs = []
+
+        def collect(node, qual):
             for ch in ast.iter_child_nodes(node):
-                q = qual
                 if isinstance(ch, (ast.ClassDef, ast.FunctionDef, ast.AsyncFunctionDef)):
                     q = (qual + "." if qual else "") + ch.name
+                    if not isinstance(ch, ast.ClassDef):
+                        funcs.append((q, ch))
+                    collect(ch, q)
+                else:
+                    collect(ch, qual)
+        collect(tree, "")
+        funcs.append(("", tree))
+        for qual, fn in funcs:
+            # statements of this function only (not of nested defs, which are listed on their own)
+            nodes = []
+
+            def own(node):
+                for ch in ast.iter_child_nodes(node):
+                    if isinstance(ch, (ast.FunctionDef, ast.AsyncFunctionDef, ast.ClassDef)):
+                        continue
+                    nodes.append(ch)
+                    own(ch)
+            own(fn)
+            aliases = set()
+            changed = True
+            while changed:          # to a fixed point (order of statements does not matter)
+                changed = False
+                for n in nodes:
+                    tg = None
+                    if isinstance(n, ast.Assign) and len(n.targets) == 1 and \
+                            isinstance(n.targets[0], ast.Name):
+                        tg, val = n.targets[0].id, n.value
+                    elif isinstance(n, ast.AnnAssign) and isinstance(n.target, ast.Name) and \
+                            n.value is not None:
+                        tg, val = n.target.id, n.value
+                    elif isinstance(n, ast.NamedExpr):
+                        tg, val = n.target.id, n.value
+                    if tg is None or tg in aliases:
+                        continue
+                    base = val
+                    while isinstance(base, (ast.Subscript, ast.Attribute)) and not \
+                            _is_collision_expr(U(base)):
+                        base = base.value
+                    bt = U(base)
+                    if _is_collision_expr(bt) or (isinstance(base, ast.Name) and
+                                                  base.id in aliases):
+                        # exclude plain reads of numbers into fresh arrays
+                        if isinstance(val, (ast.Name, ast.Attribute, ast.Subscript)):
+                            aliases.add(tg)
+                            changed = True
+
+            def root_is_collision(node):
+                """target expression lives inside a collision array (by text or alias)"""
+                base = node
+                while isinstance(base, (ast.Subscript, ast.Attribute)):
+                    if _is_collision_expr(U(base)):
+                        return True
+                    base = base.value
+                return isinstance(base, ast.Name) and base.id in aliases
+
+            for ch in nodes:
                 if isinstance(ch, ast.Call) and isinstance(ch.func, ast.Attribute):
                     attr = ch.func.attr
                     recv = U(ch.func.value)
                     what = None
                     if attr in ("newFromDirectory", "loadCollisions",
                                 "interpolateCollisionArray", "newFromPolynomial",
-                                "setCollisionArray"):
+                                "setCollisionArray", "setupWallSolver"):
                         what = attr
                     elif attr == "changeBasis":
                         if recv.endswith(".collisionArray") or recv == "collisionArray":
                             what = "collisionArray.changeBasis"
                         elif recv.endswith("polynomialData"):
                             what = "polynomialData.changeBasis"
+                        elif isinstance(ch.func.value, ast.Name) and ch.func.value.id in aliases:
+                            what = "alias.changeBasis"
                         elif fname == "collisionArray.py":
                             what = "collision.changeBasis"
+                    elif attr in MUTATING_METHODS and root_is_collision(ch.func.value):
+                        what = "in-place ." + attr
                     if what is not None and (fname, qual, what) not in ALLOWED_CALLS:
                         new.append((fname, qual or "<module>", "call of " + what + ": " +
                                     U(ch)[:60]))
-                if isinstance(ch, ast.Attribute) and isinstance(ch.ctx, (ast.Store, ast.Del)) \
-                        and ch.attr in ("collisionArray", "polynomialData"):
-                    if (fname, qual, ch.attr) not in ALLOWED_WRITES:
+                if isinstance(ch, ast.Call):
+                    for kw in ch.keywords:
+                        if kw.arg == "out" and root_is_collision(kw.value):
+                            new.append((fname, qual or "<module>", "out= into " + U(kw.value)))
+                    if U(ch.func) in ("setattr", "delattr") and ch.args[1:2] and \
+                            isinstance(ch.args[1], ast.Constant) and ch.args[1].value in (
+                                ("collisionArray", "polynomialData", "coefficients",
+                                 "bIncludeOffEquilibrium") + ANCHORED_FUNCTIONS):
+                        new.append((fname, qual or "<module>", U(ch)[:60]))
+                if isinstance(ch, ast.Attribute) and isinstance(ch.ctx, (ast.Store, ast.Del)):
+                    if ch.attr in ("collisionArray", "polynomialData") and \
+                            (fname, qual, ch.attr) not in ALLOWED_WRITES:
                         new.append((fname, qual or "<module>", "write to ." + ch.attr))
-                if isinstance(ch, ast.Attribute) and ch.attr == "coefficients" and \
-                        isinstance(ch.ctx, (ast.Store, ast.Del)) and \
-                        "ollision" in U(ch.value) + fname:
-                    new.append((fname, qual or "<module>", "write to " + U(ch)))
-                if isinstance(ch, ast.Call) and U(ch.func) in ("setattr", "delattr") and \
-                        ch.args[1:2] and isinstance(ch.args[1], ast.Constant) and \
-                        ch.args[1].value in ("collisionArray", "polynomialData"):
-                    new.append((fname, qual or "<module>", U(ch)[:60]))
-                visit(ch, q)
-        visit(tree, "")
+                    if ch.attr in ANCHORED_FUNCTIONS:
+                        new.append((fname, qual or "<module>", "rebinding of ." + ch.attr))
+                    if ch.attr == "bIncludeOffEquilibrium":
+                        new.append((fname, qual or "<module>",
+                                    "write to .bIncludeOffEquilibrium"))
+                    if ch.attr == "coefficients" and root_is_collision(ch):
+                        new.append((fname, qual or "<module>", "write to " + U(ch)))
+                # in-place changes of the numbers: x[...] = / x op= / x.attr op= on a collision
+                # array or an alias of it
+                tgts = []
+                if isinstance(ch, ast.AugAssign):
+                    tgts = [ch.target]
+                elif isinstance(ch, ast.Assign):
+                    tgts = [t for t in ch.targets if isinstance(t, ast.Subscript)]
+                elif isinstance(ch, ast.Delete):
+                    tgts = [t for t in ch.targets if isinstance(t, ast.Subscript)]
+                for t in tgts:
+                    if root_is_collision(t) and not (
+                            isinstance(t, ast.Name) and not isinstance(ch, ast.AugAssign)):
+                        new.append((fname, qual or "<module>", "in-place change of " +
+                                    U(t)[:50]))
+    # the callers of setupWallSolver: a bare statement of the method body, outside any try
+    mgr = trees.get("manager.py")
+    if mgr is not None:
+        want = "solver: WallSolver = self.setupWallSolver(wallSolverSettings)"
+        for meth in ("solveWall", "solveWallDetonation"):
+            fn = _find_method(_find_class(mgr, "WallGoManager"), meth)
+            if sum(1 for st in fn.body if U(st) == want) != 1:
+                new.append(("manager.py", "WallGoManager." + meth,
+                            "setupWallSolver is not called by the bare statement `%s`" % want))
+            n_calls = sum(1 for n in ast.walk(fn) if isinstance(n, ast.Call) and
+                          isinstance(n.func, ast.Attribute) and n.func.attr == "setupWallSolver")
+            if n_calls != 1:
+                new.append(("manager.py", "WallGoManager." + meth,
+                            "%d calls of setupWallSolver" % n_calls))
     return new
 
 
@@ -1178,6 +1411,7 @@ def generate(sources):
             raise TranslateError("cannot parse %s: %s" % (f, e))
     src_collision, src_boltzmann, src_polynomial = (
         sources["collisionArray.py"], sources["boltzmann.py"], sources["polynomial.py"])
+    check_plain_modules(trees)
     check_exception_identity(trees)
     check_helpers(trees)
     fd_prog = extract_fd_program(trees["equationOfMotion.py"])
@@ -1210,6 +1444,7 @@ Definition the_cfg : cfg := {|
   c_key_order := %(c_key_order)s;
   c_store_order := %(c_store_order)s;
   c_kind_missing := %(c_kind_missing)s;
+  c_kind_unreadable := %(c_kind_unreadable)s;
   c_guards_every := %(every)s;
   c_guards_later := %(later)s;
   c_kind_nointerp := %(c_kind_nointerp)s;
